@@ -139,19 +139,36 @@ fn main() {
                 }
             }
         }
-        // relabelings of the same diagram (edge renumbering)
-        for (ln, lf) in relabelings(2 * d.n).iter().skip(1) {
-            run.add("evaluations", 2);
-            run.add("move_edges", 1);
+        // other presentations of the same diagram: every edge renumbering x every listing order of
+        // the crossings (labels stay attached to the edges); reduced too for knots
+        {
+            let knot = d.components().len() == 1;
             let l1 = to_link(d);
-            let l2 = to_link_with(d, lf.as_ref());
-            match (kh::<i64>(&l1, false), kh::<i64>(&l2, false)) {
-                (Ok(a), Ok(b)) => {
-                    if let Some(diff) = diff_tables(&b, &a) {
-                        run.fail(&format!("khmove:i64:relabel:{ln}:{name}:{}", code_string(d)), &format!("Kh changes under renumbering of edges: {diff}"), json!({"pd": d.pd(), "labels": ln}));
+            let base: Vec<(bool, Result<Table<Z>, String>)> = [false, true].iter().filter(|r| !**r || knot).map(|&r| (r, kh::<i64>(&l1, r))).collect();
+            let base2 = if knot { Some(kh::<FF2>(&l1, true)) } else { None };
+            for (vn, code) in code_variants(d, d.n >= 3 && !th).into_iter().skip(1) {
+                let l2 = Link::from_pd_code(code.clone());
+                for (red, b) in &base {
+                    run.add("evaluations", 1);
+                    run.add("move_edges", 1);
+                    let key = format!("khmove:i64:red={}:presentation:{vn}:{name}:{}", *red as u8, code_string(d));
+                    match (b, kh::<i64>(&l2, *red)) {
+                        (Ok(a), Ok(c)) => {
+                            if let Some(diff) = diff_tables(&c, a) {
+                                run.fail(&key, &format!("Kh changes when the same diagram is presented differently (edge renumbering / crossing order): {diff}"), json!({"pd": d.pd(), "variant": code, "reduced": red}));
+                            }
+                        }
+                        (a, c) => run.fail(&key, &format!("panicked {:?} {:?}", a.as_ref().err(), c.err()), json!({"pd": d.pd(), "variant": code})),
                     }
                 }
-                (a, b) => run.fail(&format!("khmove:i64:relabel:{ln}:{name}:{}", code_string(d)), &format!("panicked {:?} {:?}", a.err(), b.err()), json!({"pd": d.pd()})),
+                if let Some(b2) = &base2 {
+                    run.add("evaluations", 1);
+                    if let (Ok(a), Ok(c)) = (b2, kh::<FF2>(&l2, true)) {
+                        if let Some(diff) = diff_tables(&c, a) {
+                            run.fail(&format!("khmove:FF2:red=1:presentation:{vn}:{name}:{}", code_string(d)), &format!("reduced Kh over F2 changes with the presentation: {diff}"), json!({"pd": d.pd(), "variant": code}));
+                        }
+                    }
+                }
             }
         }
         cx.mirror::<i64>("i64", name, d, false);
